@@ -251,7 +251,8 @@ def c03(v, h, op, res, k, prev):
         if end is not None and start is None and billed(a) != 0:
             h.report('C03', 'C03:billed-without-start', k, list(a))
         if reason == 'activation_timeout' and billed(a) != 0:
-            # (one cause whatever report exposes it: the trigger tests the timeout mark before it restores the stored reason)
+            # (one cause whatever report exposes it: before migration 124 the trigger tested the timeout mark before it restored
+            #  the stored reason; fixed by fixes/C03.diff — Coq: C03_timeout_bills_nothing)
             h.report('C03', 'C03:activation-timeout-attempt-billed:late-report-on-timed-out-attempt', k, list(a))
         if (end is None) != (reason is None):
             h.report('C03', f'C03:end-without-reason-or-reason-without-end:after-{op["op"]}', k, list(a))
